@@ -8,6 +8,14 @@ HOOK_COMMITS = ["611dceb", "dfbb501", "8c2e05d", "bdc40f2"]
 NOT_CLAIMED = {}
 
 CHECKS = {
+    "C01": {
+        "engines": NATIVE,
+        "golden": "C01A.tsv",
+        "level": "exploration",
+        "rule": "TODO",
+        "floor": {"quick": 1000, "thorough": 1000},
+        "technique": "TODO", "level_text": "TODO", "level_note": "TODO",
+    },
     "C13": {
         "engines": {"quick": ["native", "asan", "miri"], "thorough": ["native", "asan", "miri"]},
         "optional_engines": ["asan", "miri"],
